@@ -55,3 +55,11 @@ def k6(info):
     carries a slot-relative position; accepted only when the check established that everything else is as required"""
     d = info.get("details") or {}
     return bool(d.get("call_inside_slot_known_shape")) or d.get("known_probe") == "K6"
+
+
+@signature("line_break_as_offender")
+def k7(info):
+    """K7: the offending character of a lexical error, or the unexpected token of a syntax error, is a line break, and the
+    reported position is exactly (the following line, column 0); the check establishes both before marking the case"""
+    d = info.get("details") or {}
+    return bool(d.get("line_break_offender_reported_at_next_line_column_0")) or d.get("known_probe") == "K7"
